@@ -110,7 +110,8 @@ func genQScenario(r *rand.Rand) qScenario {
 			evs = append(evs, qEvent{kind: 1, id: base + r.Intn(n)})
 		}
 		mid := uint64(2 + r.Intn(n-2))
-		sc.phases = [][]qEvent{evs, {{kind: 2, table: 1, rev: mid}, {kind: 4, table: 1}}, {{kind: 2, table: 1, rev: mid + 1}, {kind: 4, table: 1}}, {{kind: 2, table: 1, rev: uint64(n)}, {kind: 4, table: 1}}}
+		sc.phases = [][]qEvent{evs, {{kind: 2, table: 1, rev: mid}, {kind: 4, table: 1}}, {{kind: 2, table: 1, rev: mid + 1}, {kind: 4, table: 1}}}
+		// (no final notification beyond every revision: whoever is still buried in the slice stays unanswered to the end)
 	}
 	return sc
 }
